@@ -275,6 +275,56 @@ func (s *session) pinPrune(v, n int64, where string, keys [][]byte) string {
 		}
 		return "refused ok"
 	}
+	if where == "async-queued" {
+		// asynchronous pruning: the deletion is queued (DeleteVersionsTo returns at once), THEN an export of a
+		// version in the range is opened, before the background pruner looks at the request (it polls every
+		// 100 ms): the pruner must find the reader and leave the version alone until the export is closed.
+		// A second tree object with the AsyncPruning option on the same store does the work; if the pruner
+		// happened to make its reader check before the pin was in place (the K9t window) nothing is judged.
+		s.cfg.async = true
+		t2 := s.newTree()
+		s.cfg.async = false
+		if _, err := t2.Load(); err != nil {
+			return "err"
+		}
+		defer t2.Close()
+		it2, err := t2.GetImmutable(v)
+		if err != nil {
+			return "err"
+		}
+		// when the pruner's reader check lets the deletion pass, the hook right behind the check fires: if that
+		// happened before (or within 2 ms after) the pin was in place, the check ran in the K9t window
+		var checkedAt int64
+		setYield(func(p string) {
+			if p == "prune:checked" {
+				atomic.CompareAndSwapInt64(&checkedAt, 0, time.Now().UnixNano())
+			}
+		})
+		if err := t2.DeleteVersionsTo(n); err != nil {
+			return "err"
+		}
+		ex, err := it2.Export()
+		if err != nil {
+			return "export-refused"
+		}
+		pinnedAt := time.Now().UnixNano()
+		time.Sleep(400 * time.Millisecond)
+		c := atomic.LoadInt64(&checkedAt)
+		early := c != 0 && c <= pinnedAt+2_000_000
+		exists := t2.VersionExists(v)
+		r = drainEx(ex)
+		ex.Close()
+		if early {
+			return "raced ok"
+		}
+		if !exists {
+			return "version pinned by an export opened after the asynchronous deletion was queued has been deleted"
+		}
+		if r.err || r.stream != want {
+			return "pinned version kept but its export is incomplete"
+		}
+		return "held ok"
+	}
 	if where == "prune:checked" {
 		setYield(func(p string) {
 			if p == where {
